@@ -28,6 +28,9 @@ rc1, np1, f1, o1 = cargo_test(demo)
 print("demo with patch:", rc1, np1, f1)
 if rc1 == 0:
     print(o1[-1500:])
+# the crate's own tests are run with the patch alone (a demonstration that lives inside the crate would list itself)
+sh(["git", "reset", "-q", "--hard", "HEAD"]); sh(["git", "clean", "-fdq", "-e", "_seed", "-e", "target"])
+assert sh(["git", "apply", f"{S}/patch.diff"]).returncode == 0, "patch.diff does not apply on its own"
 rc2, np2, f2, o2 = cargo_test(["--lib"])
 ignorable = {"server::service::tests::test_backend_tls", "tests::test_it_works_dns_v4"}
 f2x = [t for t in f2 if t not in ignorable]
